@@ -48,7 +48,7 @@ impl Prop for C15 {
     fn rule(&self) -> String {
         "lock: seeded (private key, password in {empty, ASCII, UTF-8, 64/65/200 bytes, NUL, 0x80, trailing space / newline / tab, 87-byte passphrase}, salt): Rust string == model string, unlocks on both sides to the key, and is base64 of \
          65676b30 || salt || ChaCha20-Poly1305(scrypt(pw, salt, 32768, 8, 1), nonce 0, ad = version) recomputed from the exported primitives; wrong passwords (one-bit neighbours, prefix, empty) rejected; \
-         every single-bit flip of the 84-byte blob (all 672 in thorough, all of version/ciphertext/tag plus a salt sample in quick) must fail on both sides. non-trivial = distinct (case kind, password kind or flipped bit)".into()
+         every single-bit flip of the 84-byte blob (all 672 in thorough, all of version/ciphertext/tag plus a salt sample in quick) must fail on both sides; a valid blob with 1..1000 bytes appended or 1..84 removed (re-encoded) must fail. non-trivial = distinct (case kind, password kind or flipped bit)".into()
     }
     fn cases(&self, tier: &str, seed: u64) -> Vec<Case> {
         let th = tier == "thorough";
@@ -60,6 +60,8 @@ impl Prop for C15 {
         // the two HMAC key-normalisation collisions (RFC 2104): a known finding, reproduced on every run
         v.push(case(&[("kind", "wrongpw".into()), ("pwi", "1".into()), ("rel", "nulpad".into()), ("seed", "11".into())]));
         v.push(case(&[("kind", "wrongpw".into()), ("pwi", "5".into()), ("rel", "longhash".into()), ("seed", "12".into())]));
+        // the string is exactly 84 bytes: a valid blob with bytes appended or removed (re-encoded, so the base64 itself is fine) is not a locked key
+        for d in [-84i64, -17, -16, -1, 1, 2, 3, 16, 32, 84, 1000] { if th || [-16, -1, 1, 2, 3, 16].contains(&d) { v.push(case(&[("kind", "resize".into()), ("delta", d.to_string()), ("seed", rng.next().to_string())])); } }
         let blobs = if th { 3 } else { 1 };
         for b in 0..blobs {
             for bit in 0..672usize {
@@ -107,6 +109,23 @@ impl Prop for C15 {
                     if r != "err skdecrypt" { o.oracle_fail = Some(("other-password-rejected".into(), format!("unlock with a different password ({}: {} vs {}) gave {}", rel, hexd(&pw), hexd(&wrong), r))); }
                     else if mr != r { o.disagreement = Some(format!("impl {} model {}", r, mr)); }
                 }
+            }
+            "resize" => {
+                let mut rng = Rng::new(get(c, "seed").parse().unwrap_or(0));
+                let d: i64 = get(c, "delta").parse().unwrap_or(1);
+                let sk = rng.bytes(32); let salt: [u8; 32] = rng.bytes(32).try_into().unwrap(); let pw = b"resize-me".to_vec();
+                let s = Keyring::lock_private_key(&crate::imp::sk(&sk), &pw, salt);
+                let mut blob = Base64::decode_to_vec(s.as_str(), None).unwrap();
+                if d > 0 { let extra = if rng.chance(1, 2) { vec![0u8; d as usize] } else { rng.bytes(d as usize) }; blob.extend_from_slice(&extra); } else { blob.truncate((84 + d) as usize); }
+                let s2 = Base64::encode_to_string(&blob).unwrap();
+                let r = rust_unlock(&s2, &pw);
+                let mr = m.ask(&format!("unlock {} {}", if s2.is_empty() { "-".to_string() } else { hex(s2.as_bytes()) }, hex(&pw)));
+                o.tags.push(format!("resize {}", if d > 0 { "longer" } else { "shorter" })); o.nontrivial = Some(format!("resize/{}", d));
+                o.impl_obs = r.clone(); o.model_obs = mr.clone(); o.validated += 1;
+                if r.starts_with("ok") { o.oracle_fail = Some(("exactly-84-bytes".into(), format!("a locked key of {} bytes (a valid 84-byte key {}) unlocks with the password: {}", blob.len(), if d > 0 { format!("followed by {} more bytes", d) } else { format!("cut by {} bytes", -d) }, r))); }
+                else if r == "crash" { o.oracle_fail = Some(("no-panic".into(), "unlock panicked".into())); }
+                else if s2.is_empty() {}
+                else if r != mr { o.disagreement = Some(format!("impl {} model {}", r, mr)); }
             }
             _ => {
                 let b = getn(c, "blob") as u64; let bit = getn(c, "bit");
